@@ -362,7 +362,13 @@ class BaseDOELibrary(BaseDriverLibrary, Serializable):
         """
         data, jacobian_data = output_and_jacobian_data
         if jacobian_data:
+            design_space = self._problem.design_space
             for output_name, jacobian in jacobian_data.items():
+                if self._normalize_ds:
+                    # As in the sequential execution,
+                    # the database stores the Jacobian
+                    # with respect to the unnormalized design variables.
+                    jacobian = design_space.unnormalize_grad(jacobian)
                 data[self._problem.database.get_gradient_name(output_name)] = jacobian
 
         self._problem.database.store(self.samples[index], data)
